@@ -32,7 +32,8 @@ type Property struct {
 	Run func(c *Ctx) *Violation
 	// Init runs once per process before the first case (after the pristine
 	// package state has been captured).
-	Init func()
+	Init        func()
+	Notes       func() map[string]string
 	Rule        string
 	Assumptions []string
 	Components  map[string][]string
@@ -58,17 +59,17 @@ type CaseResult struct {
 
 // WorkerOut is the JSON a worker process prints as its last line.
 type WorkerOut struct {
-	Worker     int                  `json:"worker"`
-	Cases      int                  `json:"cases"`
-	Counters   map[string]int64     `json:"counters"`
-	Sets       map[string][]uint64  `json:"sets"`
-	Samples    []interface{}        `json:"samples"`
-	Known      map[string]KnownHit  `json:"known"`
-	Violation  *ViolationReport     `json:"violation,omitempty"`
-	NonDet     string               `json:"nondeterminism,omitempty"`
-	DetChecked int                  `json:"det_checked"`
-	VirtualNs  int64                `json:"virtual_ns"`
-	HarnessErr string               `json:"harness_error,omitempty"`
+	Worker     int                 `json:"worker"`
+	Cases      int                 `json:"cases"`
+	Counters   map[string]int64    `json:"counters"`
+	Sets       map[string][]uint64 `json:"sets"`
+	Samples    []interface{}       `json:"samples"`
+	Known      map[string]KnownHit `json:"known"`
+	Violation  *ViolationReport    `json:"violation,omitempty"`
+	NonDet     string              `json:"nondeterminism,omitempty"`
+	DetChecked int                 `json:"det_checked"`
+	VirtualNs  int64               `json:"virtual_ns"`
+	HarnessErr string              `json:"harness_error,omitempty"`
 }
 
 type KnownHit struct {
@@ -284,6 +285,7 @@ func coordinator(args []string) int {
 		return 2
 	}
 	loadKnown(*known)
+	os.Setenv("VERIF_INSTR", *isum)
 	seed := envSeed()
 	n := p.Cases(*tier)
 	if s := os.Getenv("VERIF_CASES"); s != "" {
@@ -320,7 +322,7 @@ func coordinator(args []string) int {
 	for w := 0; w < W; w++ {
 		cmd := exec.Command(self, "worker", "-prop", p.ID, "-tier", *tier, "-seed", strconv.FormatUint(seed, 10),
 			"-from", strconv.Itoa(w), "-stride", strconv.Itoa(W), "-n", strconv.Itoa(n), "-known", *known)
-		cmd.Env = append(os.Environ(), "GOMAXPROCS=1", "GOTRACEBACK=single")
+		cmd.Env = append(os.Environ(), "GOMAXPROCS=1", "GOTRACEBACK=single", "VERIF_INSTR="+*isum)
 		var so, se bytes.Buffer
 		cmd.Stdout = &so
 		cmd.Stderr = &se
